@@ -7,4 +7,5 @@ def main : IO UInt32 :=
     match family with
     | "c10" => C10.check params lines
     | "c10noexc" => C10.checkNoExc params lines
+    | "c10two" => C10.checkTwo params lines
     | _ => { bad := [s!"unknown family {family}"] })
